@@ -271,11 +271,15 @@ impl<F: Write + Seek> MiniAllocator<F> {
         let minifat_entries_per_sector = self.directory.sector_len() / 4;
         if self.minifat_start_sector == consts::END_OF_CHAIN {
             debug_assert!(self.minifat.is_empty());
-            self.minifat_start_sector =
+            // Only remember the new MiniFAT chain once the header points to
+            // it; otherwise, if writing the header fails, a retry would
+            // find the chain in memory and never record it in the file.
+            let minifat_start_sector =
                 self.directory.begin_chain(SectorInit::Fat)?;
             let mut header = self.directory.seek_within_header(60)?;
-            header.write_le_u32(self.minifat_start_sector)?;
+            header.write_le_u32(minifat_start_sector)?;
             header.write_le_u32(1)?;
+            self.minifat_start_sector = minifat_start_sector;
         } else {
             // The MiniFAT chain isn't truncated when its trailing entries are
             // freed, so it may already have room for the new entry.
@@ -291,9 +295,13 @@ impl<F: Write + Seek> MiniAllocator<F> {
             }
         }
         // Add a new mini sector to the end of the mini stream and return it.
+        // The mini stream is extended before the MiniFAT entry is added: if
+        // the second step fails, the mini stream merely has an unused mini
+        // sector at its end, whereas a MiniFAT entry beyond the end of the
+        // mini stream would be dropped when the file is next opened.
         let new_mini_sector = self.minifat.len() as u32;
-        self.set_minifat(new_mini_sector, value)?;
         self.append_mini_sector()?;
+        self.set_minifat(new_mini_sector, value)?;
         Ok(new_mini_sector)
     }
 
